@@ -63,6 +63,8 @@ func NewSubscriptionManager(
 		whenCtx:     map[context.Context][]*WhenBinding{},
 		whenTimeCtx: map[context.Context][]*WhenTimeBinding{},
 		whenArgsCtx: map[context.Context][]*WhenArgsBinding{},
+
+		whenQueryCtx: map[context.Context][]*whenQueryBinding{},
 	}
 }
 
